@@ -41,7 +41,7 @@ def call_index(unit, element, w, c, rules, same_id=None, foreign_name=None, used
         if r is None:
             r = _USED[unit] = rule.Rule(unit)
         earlier = []
-        for errs in (earlier, None):
+        for errs in ((None, earlier) if used == "collecting-last" else (earlier, None)):
             try:
                 r.validate_rule(p, errs)
             except Exception:  # noqa: BLE001
@@ -78,14 +78,14 @@ def w_insert(idx):
             cases += [(c01.FOREIGN, [], "foreign:" + h) for a in sorted(x for x in names_sigma if not x.startswith("~"))[:2]
                       for h in ("{u}" + a, "x}" + a, "x:" + a, a + " ", a.capitalize(), a + "s") if h not in names_sigma]
         if i % 3 == 1 and unit != "@metadata":
-            cases += [(c, acc, "used-rule") for c, acc in list(accs.items()) + [(c01.FOREIGN, [])]]
+            cases += [(c, acc, "used-rule:" + ("collecting-last" if i % 2 else "fail-fast-last")) for c, acc in list(accs.items()) + [(c01.FOREIGN, [])]]
         for c, acc, same_id in cases:
             fname = None
             if same_id and same_id.startswith("foreign:"):
                 fname, same_id = same_id[8:], None
-            used = same_id == "used-rule"
-            if used:
-                same_id = None
+            used = False
+            if same_id and same_id.startswith("used-rule:"):
+                used, same_id = same_id[10:], None
             kind, got = call_index(unit, el, w, c, rules, same_id, fname, used=used)
             n += 1
             replay = {"kind": "insert", "unit": unit, "element": el, "children": w, "candidate": c, "acceptable": acc, "children_constructed_with_id": same_id, "rule_object_used_before": used}
